@@ -574,9 +574,25 @@ func ReadKeysAndCertElgAndEd25519(data []byte) (keysAndCert *KeysAndCert, remain
 	if err != nil {
 		return
 	}
+	if err = requireDeclaredKeyTypes(keysAndCert.KeyCertificate, key_certificate.KEYCERT_CRYPTO_ELG, key_certificate.KEYCERT_SIGN_ED25519); err != nil {
+		return
+	}
 
 	logElgEd25519Success(len(keysAndCert.Padding), len(remainder))
 	return
+}
+
+// requireDeclaredKeyTypes makes the key-type-specific readers reject input whose key certificate
+// declares other key types than the ones the reader extracts. Without it the reader returned a
+// value whose keys contradict its certificate (Bytes() fails or re-serialises differently).
+func requireDeclaredKeyTypes(keyCert *key_certificate.KeyCertificate, cryptoType, signingType int) error {
+	if keyCert.PublicKeyType() != cryptoType || keyCert.SigningPublicKeyType() != signingType {
+		return oops.Errorf(
+			"key certificate declares crypto type %d / signing type %d, this reader only handles %d / %d",
+			keyCert.PublicKeyType(), keyCert.SigningPublicKeyType(), cryptoType, signingType,
+		)
+	}
+	return nil
 }
 
 // readKeysAndCertNonKeyCert handles parsing of KeysAndCert with non-KEY certificate types.
@@ -683,6 +699,9 @@ func ReadKeysAndCertX25519AndEd25519(data []byte) (keysAndCert *KeysAndCert, rem
 
 	keysAndCert.KeyCertificate, remainder, err = extractKeyCertificate(data, totalKeySize)
 	if err != nil {
+		return
+	}
+	if err = requireDeclaredKeyTypes(keysAndCert.KeyCertificate, key_certificate.KEYCERT_CRYPTO_X25519, key_certificate.KEYCERT_SIGN_ED25519); err != nil {
 		return
 	}
 
